@@ -472,8 +472,13 @@ func (c Conc) str(n, cls int) string {
 	}
 	switch cls {
 	case 1:
-		// some non-ASCII runes, keeping the byte length
-		for _, u := range []string{"é", "日", "ß"} {
+		// non-ASCII runes, keeping the byte length: ordinary ones and the ones encoders tend to treat specially (the
+		// replacement character, line / paragraph separators, BOM, the edges of the UTF-8 length classes and of the
+		// surrogate gap, the last code point)
+		pool := []string{"é", "日", "ß", "\ufffd", "\u2028", "\u2029", "\ufeff", "\u00a0", "\u0080", "\u07ff", "\u0800", "\ud7ff", "\ue000",
+			"\uffff", "\U00010000", "\U0010ffff", "\ufffc"}
+		for try := 0; try < 8; try++ {
+			u := pool[c.r.Intn(len(pool))]
 			if len(u) <= n {
 				copy(b[c.r.Intn(n-len(u)+1):], u)
 				break
@@ -486,7 +491,11 @@ func (c Conc) str(n, cls int) string {
 			}
 		}
 	case 2:
-		b[c.r.Intn(n)] = []byte{'"', '\\', '\n', '\t', 0x01}[c.r.Intn(5)]
+		b[c.r.Intn(n)] = []byte{'"', '\\', '\n', '\t', 0x01, 0x00, 0x1b, 0x1f, 0x7f}[c.r.Intn(9)]
+		if n >= 6 && c.r.Intn(3) == 0 { // the text of an escape sequence, literally
+			lit := []string{`\ufffd`, `\u0041`, `\u0000`, `\"x\"y`}[c.r.Intn(4)]
+			copy(b[c.r.Intn(n-len(lit)+1):], lit)
+		}
 	}
 	return string(b)
 }
